@@ -295,6 +295,7 @@ def digits_of(eng: Any, mag: Any, min_digits: int, max_digits: int = 40) -> tupl
 
 
 def format_int(eng: Any, v: Any, spec: str) -> Any:
+    eng.assumptions_used.add("A10")
     sp = _parse_spec(spec)
     neg = eng.truth(v < 0)
     mag = -v if neg else v
